@@ -4456,7 +4456,10 @@ where
             }
           }
           #[cfg(feature = "additional-controls")]
-          None | Some(ControlOperator::FEATURE) => {
+          None
+          | Some(ControlOperator::FEATURE)
+          | Some(ControlOperator::AND)
+          | Some(ControlOperator::WITHIN) => {
             if i128::from(*i) == *v as i128 {
               None
             } else {
@@ -4512,7 +4515,10 @@ where
             }
           }
           #[cfg(feature = "additional-controls")]
-          None | Some(ControlOperator::FEATURE) => {
+          None
+          | Some(ControlOperator::FEATURE)
+          | Some(ControlOperator::AND)
+          | Some(ControlOperator::WITHIN) => {
             if i128::from(*i) == *v as i128 {
               None
             } else {
@@ -4557,7 +4563,10 @@ where
             }
           }
           #[cfg(feature = "additional-controls")]
-          None | Some(ControlOperator::FEATURE) => {
+          None
+          | Some(ControlOperator::FEATURE)
+          | Some(ControlOperator::AND)
+          | Some(ControlOperator::WITHIN) => {
             if (*f - *v).abs() < f64::EPSILON {
               None
             } else {
